@@ -155,7 +155,7 @@ func (interp *Interpreter) importSrc(rPath, importPath string, skipTest bool) (s
 	// Once all package sources have been parsed, execute entry points then init functions.
 	// The import can take place before the execution of the importing program: as Execute,
 	// make sure that the run id is not the one of a previous, cancelled, evaluation.
-	interp.frame.setrunid(interp.runid())
+	defer interp.end(interp.begin())
 	for _, n := range rootNodes {
 		if err = genRun(n); err != nil {
 			return "", err
